@@ -420,4 +420,62 @@ def Resaves {τ τ' : Type} (pc : τ → Except Err Corner) (pc' : τ' → Excep
 
 end spec
 
+/-! ### load → save, corner by corner (final-pool form; theorem `obj_resave_corners`) -/
+
+section resavespec
+variable {α : Type}
+
+/-- corner tokens of face lines, flattened -/
+def flatC {τ : Type} : List (τ × τ × τ) → List τ
+  | [] => []
+  | (a, b, c) :: r => a :: b :: c :: flatC r
+
+/-- the face lines of a text, in order -/
+def faceToks {τ : Type} : List (Line τ α) → List (τ × τ × τ)
+  | [] => []
+  | .f a b c :: ls => (a, b, c) :: faceToks ls
+  | _ :: ls => faceToks ls
+
+def poolV {τ : Type} : List (Line τ α) → List (V3 α)
+  | [] => []
+  | .v p :: ls => p :: poolV ls
+  | _ :: ls => poolV ls
+def poolN {τ : Type} : List (Line τ α) → List (V3 α)
+  | [] => []
+  | .vn p :: ls => p :: poolN ls
+  | _ :: ls => poolN ls
+def poolT {τ : Type} : List (Line τ α) → List (V2 α)
+  | [] => []
+  | .vt p :: ls => p :: poolT ls
+  | _ :: ls => poolT ls
+
+/-- a corner with its vt / vn slot removed unless kept -/
+def maskC (c : Corner) (kt kn : Bool) : Corner := ⟨c.v, if kt then c.vt else none, if kn then c.vn else none⟩
+
+/-- does `toMesh` keep the group's texture coordinates / normals (complete, non-empty table)? -/
+def keptT {τ : Type} (g : Group τ α) : Bool := (keepIfComplete g.verts.length g.uvs).isSome
+def keptN {τ : Type} (g : Group τ α) : Bool := (keepIfComplete g.verts.length g.normals).isSome
+
+/-- what the saved text must hold for corner token `t` of group `g`: the token resolved against the
+    input's pools, its vt / vn slot dropped unless the whole group supplies it -/
+def savedCorner {τ : Type} (pc : τ → Except Err Corner) (pv pn : List (V3 α)) (pt : List (V2 α)) (g : Group τ α) (t : τ) :
+    Option (RCorner α) :=
+  match pc t with
+  | .ok c => resolveCorner pv pn pt (maskC c (keptT g) (keptN g))
+  | .error _ => none
+
+/-- every face corner of a text, in file order, resolved against the text's own `v / vt / vn` lines -/
+def cornerAttrs {τ : Type} (pc : τ → Except Err Corner) (ls : List (Line τ α)) : List (Option (RCorner α)) :=
+  (flatC (faceToks ls)).map fun t => match pc t with
+    | .ok c => resolveCorner (poolV ls) (poolN ls) (poolT ls) c
+    | .error _ => none
+
+/-- the statement of `obj_resave_corners`, as a decidable predicate on the groups read from `ls` and a saved text -/
+def ResavesCorners [DecidableEq α] {τ τ' : Type} (pc : τ → Except Err Corner) (pc' : τ' → Except Err Corner)
+    (ls : List (Line τ α)) (gs : List (Group τ α)) (out : List (Line τ' α)) : Bool :=
+  cornerAttrs pc' out == gs.flatMap (fun g => (flatC g.ftoks).map (savedCorner pc (poolV ls) (poolN ls) (poolT ls) g)) &&
+  (cornerAttrs pc' out).all Option.isSome
+
+end resavespec
+
 end PolyVerif.Obj
